@@ -3,6 +3,7 @@ Command interpreter for the line protocol (see `Main.lean`).
 -/
 import P3R.Model.Runner
 import P3R.Model.Roles
+import P3R.Model.FusionCheck
 import P3R.Model.Field
 
 namespace P3R.Driver
@@ -142,6 +143,14 @@ def step (st : St) (line : String) : St × List String :=
         match compile st.b with
         | .ok c => ({ st with c := some c }, "build ok" :: circuitLines c)
         | .error _ => ({ st with c := none }, ["build err"])
+      | "fcheck", [] =>
+        -- certificate check of the fusion pass on this program (see Model/FusionCheck.lean)
+        match lower st.b with
+        | .error _ => (st, ["fcheck n/a"])
+        | .ok l =>
+          let (dops, rw) := dedup l.ops
+          let (res, sites) := fuseWithSites dops (l.privRows.toList.map (resolve rw))
+          (st, [s!"fcheck {fusionCheckReport dops.toList res.toList sites}"])
       | "prep", [] =>
         match st.c with
         | none => (st, ["bad-op"])
